@@ -91,13 +91,13 @@ theorem sameLinks_foldlM (pts : Array (V3 K)) (point : Nat) : ∀ (l : List Nat)
 
 theorem sameLinks_assignUndecidable (pts : Array (V3 K)) : ∀ (fuel i : Nat) (und : Array Nat) (nf : Array (Facet K))
     (und' : Array Nat) (nf' : Array (Facet K)),
-    assignUndecidable pts fuel i und nf = some (und', nf') → SameLinks nf' nf := by
+    H3.assignUndecidable pts fuel i und nf = some (und', nf') → SameLinks nf' nf := by
   intro fuel
   induction fuel with
-  | zero => intro i und nf und' nf' h; simp [assignUndecidable] at h; obtain ⟨_, rfl⟩ := h; exact SameLinks.refl _
+  | zero => intro i und nf und' nf' h; simp [H3.assignUndecidable] at h; obtain ⟨_, rfl⟩ := h; exact SameLinks.refl _
   | succ fuel ih =>
     intro i und nf und' nf' h
-    unfold assignUndecidable at h
+    unfold H3.assignUndecidable at h
     split at h
     · simp at h; obtain ⟨_, rfl⟩ := h; exact SameLinks.refl _
     · simp only at h
